@@ -109,7 +109,7 @@ type c02case struct {
 
 var c02flagNames = map[string]slog.Flags{"Lcaller": slog.Lcaller, "LattrsR": slog.LattrsR, "LlocalTime": slog.LlocalTime}
 
-var c02dests = []string{"1 normal", "2 normal + 2 error", "2 normal + 2 error + per-level(Info,Always)", "2 normal + 2 error + per-level writers (Info,Warn,Error,Always) added and removed again"}
+var c02dests = []string{"1 normal", "2 normal + 2 error", "2 normal + 2 error + per-level(Info,Always)", "2 normal + 2 error + per-level writers (Info,Warn,Error,Always) added and removed again", "9 normal + 9 error"}
 
 // c02configure builds the destination set; returns writer names by class.
 func c02configure(l *slog.Entry, rec *recorder, dest int) (normal, errw []string, leveled map[slog.Level][]string) {
@@ -120,6 +120,13 @@ func c02configure(l *slog.Entry, rec *recorder, dest int) (normal, errw []string
 		w := mk("n1")
 		l.SetWriter(w).SetErrorWriter(w)
 		return []string{"n1"}, []string{"n1"}, leveled
+	case 4:
+		for i := 1; i <= 9; i++ {
+			l.AddWriter(mk(fmt.Sprintf("n%d", i)))
+			l.AddErrorWriter(mk(fmt.Sprintf("e%d", i)))
+			normal, errw = append(normal, fmt.Sprintf("n%d", i)), append(errw, fmt.Sprintf("e%d", i))
+		}
+		return
 	default:
 		l.SetWriter(mk("n1")).AddWriter(&closerW{plainW: plainW{"n2", rec}})
 		l.SetErrorWriter(mk("e1")).AddErrorWriter(mk("e2"))
@@ -376,7 +383,7 @@ func c02cases(thorough bool, emit func(c02case)) {
 		for _, e := range ents {
 			for _, f := range formats {
 				for _, lv := range levels {
-					for d := 0; d < 4; d++ {
+					for d := 0; d < 5; d++ {
 						emit(c02case{Layer: "B-msg-level-dest", Entry: e.name, MsgQ: qk(m), Args: []string{`"k"`, "1"}, Format: f, Level: int(lv), Dest: d})
 						if d == 0 && lv == slog.TraceLevel {
 							emit(c02case{Layer: "B2-after-a-prior-record", Entry: e.name, MsgQ: qk(m), Args: []string{`"k"`, "1"}, Format: f, Level: int(lv), Dest: d, Prior: true})
